@@ -331,7 +331,8 @@ Lemma ok_receive_trailers : okA (receive_trailers src c).
 Proof. unfold receive_trailers. pose proof ok_request_sent. pose proof ok_up_append_trailers. pose proof ok_clean_stream. ok_auto. Qed.
 Lemma ok_do_retry : okA (do_retry src c).
 Proof.
-  unfold do_retry. pose proof (ok_hijack 502 false). pose proof ok_clean_up. pose proof (ok_up_append_headers (no_body c)).
+  assert (okA (do_retry_send src c)); [|unfold do_retry; ok_auto].
+  unfold do_retry_send. pose proof (ok_hijack 502 false). pose proof ok_clean_up. pose proof (ok_up_append_headers (no_body c)).
   pose proof (ok_up_append_data (negb (c_trailers c))). pose proof ok_up_append_trailers. pose proof ok_setup_per_req_timeout.
   ok_auto.
 Qed.
